@@ -43,6 +43,12 @@ end
 
 instance : Inhabited Expr := ⟨.bool false ⟨0, 0⟩⟩
 
+/-- the call arguments written behind a part of a name, if any -/
+def Part.callArgs : Part → Option (List Expr)
+  | .ident _ c => c
+  | .idx _ c => c
+  | .sub _ c => c
+
 /-- include tag: how the template is found -/
 inductive IncludeSrc
   | static (tplIdx : Nat)                    -- compiled at parse time; index into the compile result's sub-templates
